@@ -337,6 +337,7 @@ CLAUSES = {
     "tracks": run_program,
     "compositions": run_program,
     "deviations": run_program,
+    "rest_ticks": run_program,
     "standalone": run_standalone,
     "writer_bfs": run_writer_bfs,
     "vlq": run_vlq,
@@ -365,6 +366,24 @@ def gen_bars(shard):
         comp = {"tracks": [{"name": None, "instrument": None, "bars": [Z.bar_recipe(pat)]}]}
         yield {"comp": comp, "bpm": 120, "repeat": 0, "apis": ["bar", "track", "composition"]}
         yield {"comp": comp, "bpm": 120, "repeat": 1, "apis": ["bar", "track"]}
+
+
+def gen_rest_ticks(shard):
+    """every whole number of ticks in the shard as the length of a rest (one rest of value 288.0/t, and the same length
+    split over two rests) in front of a note, and as the length of a note: every delta time 1..N is written"""
+    for t in shard:
+        beats = max(2, -(-(t + 80) // 72))
+        pats = [[("R", ["ticks", t]), ("N", 4)], [("N", ["ticks", t]), ("M", 4)]]
+        if t >= 2:
+            pats.append([("R", ["ticks", t // 2]), ("R", ["ticks", t - t // 2]), ("CH", 4)])
+        for pat in pats:
+            comp = {"tracks": [{"name": None, "instrument": None, "bars": [Z.bar_recipe(pat, meter=(beats, 4))]}]}
+            yield {"comp": comp, "bpm": 120, "repeat": 0, "apis": ["bar", "track"]}
+    if 1 in shard:
+        # long silences: whole bars of rest in front of a note (delta times around the 2-byte / 3-byte boundary 16384)
+        for nb in (1, 14, 15, 56, 57, 58):
+            bars = [Z.bar_recipe([("R", 1)]) for _ in range(nb)] + [Z.bar_recipe([("R", ["ticks", 32]), ("N", 4)])]
+            yield {"comp": {"tracks": [{"name": None, "instrument": None, "bars": bars}]}, "bpm": 120, "repeat": 0, "apis": ["track"]}
 
 
 TRACK_BAR_SETTINGS = [("C", (4, 4)), ("f#", (4, 4)), ("Bb", (12, 8))]
@@ -533,6 +552,10 @@ def explore(ctx):
         for i, (vals, mx) in enumerate(passes):
             BAR_VALUES, BAR_MAX, BAR_EARLIER = vals, mx, passes[:i]
             ctx.product("bars", [("", 0)] + [(k, v) for k in Z.SYMBOLS for v in vals], gen_bars)
+    if ctx.want("rest_ticks"):
+        tmax = ctx.pick(600, 1152)
+        ctx.bound("rest_ticks", "rests and notes of every whole tick length 1..%d; 1-58 whole bars of rest before a note" % tmax)
+        ctx.product("rest_ticks", [list(range(1 + i, tmax + 1, 16)) for i in range(16)], gen_rest_ticks)
     if ctx.want("tracks"):
         ctx.bound("tracks", "1..3 bars from the 12-pattern zoo x {no instrument, MIDI 13} x repeat {0,1}")
         ctx.product("tracks", list(range(len(Z.PATTERNS))), gen_tracks)
